@@ -1,6 +1,7 @@
 package main
 
 import (
+	"encoding/base64"
 	"encoding/json"
 	"fmt"
 	"reflect"
@@ -71,6 +72,8 @@ func runC02(c *Ctx) {
 	kr := newKeyring()
 	distinct := map[string]bool{}
 	kinds := append([]string{}, kindNames...)
+	// kind names in another letter case (and with letters that lower-case into them) are other kinds: generic claims
+	respelled := []string{"USER", "Account", "Operator", "ACTIVATION", "act\u0130vat\u0130on", "Authorization_Request", "u\u017fer", "user "}
 	// a caller that builds its own list from what ExpectedPrefixes returned (append to the returned slice) must not
 	// change the matrix for anybody: done first, and again before the Encode half
 	extendPrefixes := func() {
@@ -84,7 +87,7 @@ func runC02(c *Ctx) {
 		}
 	}
 	extendPrefixes()
-	for _, kind := range kinds {
+	for _, kind := range append(append([]string{}, kinds...), respelled...) {
 		for _, ir := range allRoles {
 			for _, sr := range allRoles {
 				for _, layout := range []string{"v1", "v2"} {
@@ -308,9 +311,15 @@ func runC05(c *Ctx) {
 	typs := []interface{}{"JWT", "jwt", "Jwt", "JWS", "", nil}
 	algs := []interface{}{"ed25519", "ED25519", "ed25519-nkey", "Ed25519-NKey", "ed25519-nkey2", "ed25519-", "ed2551", "none", "", nil, "ed25519-nkeY "}
 	versions := []interface{}{nil, -1, 0, 1, 2, 3, int64(1) << 40}
-	kinds := []string{"operator", "account", "user", "activation", "authorization_request", "authorization_response", "generic", "cluster", "server", "unknown_kind", ""}
+	kinds := []string{"operator", "account", "user", "activation", "authorization_request", "authorization_response", "generic", "cluster", "server", "unknown_kind", "",
+		"USER", "Account", "OPERATOR", "Activation", "Cluster", "SERVER"}
 	signerFor := map[string]string{"operator": "operator", "account": "account", "user": "account", "activation": "account",
 		"authorization_request": "server", "authorization_response": "account", "generic": "user", "cluster": "operator", "server": "operator", "unknown_kind": "account", "": "account"}
+	for _, k := range kinds {
+		if signerFor[k] == "" {
+			signerFor[k] = signerFor[strings.ToLower(k)] // a respelled kind, signed by a key the kind it resembles would accept
+		}
+	}
 	// declared versions that are not small integers: beyond int64 / uint64, exponent and fraction forms, quoted,
 	// boolean - a payload that "declares a version no newer than 2" declares an integer
 	for _, ver := range []interface{}{json.Number("9223372036854775808"), json.Number("18446744073709551618"), json.Number("1e29"),
@@ -391,6 +400,38 @@ func runC05(c *Ctx) {
 							c.count("header_bit_change")
 						}
 					}
+				}
+			}
+		}
+	}
+	// segments written in the STANDARD base64 alphabet (+ and / where base64url has - and _), unpadded, and signed over
+	// exactly that text: not base64url, whoever accepts it
+	for _, kind := range []string{"user", "account", "generic"} {
+		sg := kr.by[signerFor[kind]]
+		pj := payload(kind, "nats", 2, sg.pub, kr.by["account"].pub)
+		pj = pj[:len(pj)-1] + `,"name":"???>>>~~~\u00ff\u00fe\u00fb"}`
+		hj := `{"typ":"JWT","alg":"ed25519-nkey","x":"???>>>"}`
+		std := base64.RawStdEncoding.EncodeToString
+		for _, which := range []string{"payload", "header", "both"} {
+			h, p := b64.EncodeToString([]byte(hj)), b64.EncodeToString([]byte(pj))
+			if which != "payload" {
+				h = std([]byte(hj))
+			}
+			if which != "header" {
+				p = std([]byte(pj))
+			}
+			for _, layout := range []string{"v1", "v2"} {
+				text := p
+				if layout == "v2" {
+					text = h + "." + p
+				}
+				sig, _ := sg.kp.Sign([]byte(text))
+				for _, sigEnc := range []func([]byte) string{b64.EncodeToString, std} {
+					ft := forged{Token: h + "." + p + "." + sigEnc(sig), Header: hj, Pay: pj, Layout: layout,
+						Note: fmt.Sprintf("%s token, %s in the standard base64 alphabet, signed %s over that text", kind, which, layout)}
+					_, o := processToken(c, w, ft)
+					distinct[fmt.Sprint("stdalpha", kind, which, layout, o.Accepted, o.Generic)] = true
+					c.count("standard_alphabet_segment")
 				}
 			}
 		}
@@ -674,6 +715,31 @@ func runC01(c *Ctx) {
 				_, o := processToken(c, w, ft)
 				distinct[fmt.Sprint("shortiss", kind, len(iss), layout, o.Accepted)] = true
 				c.count("issuer_wrong_length_key")
+			}
+		}
+	}
+	// the issuer spelled in another letter case, with look-alike characters that fold to the right letters, or padded,
+	// and signed by the key it resembles: the text is not that key, so nothing verifies under "the reported issuer"
+	for _, kind := range kindNames {
+		s := kr.by[signerFor[kind]]
+		variants := []string{strings.ToLower(s.pub), strings.ToLower(s.pub[:20]) + s.pub[20:], s.pub[:1] + strings.ToLower(s.pub[1:]),
+			strings.Replace(s.pub, "S", "\u017f", 1), strings.Replace(s.pub, "K", "\u212a", 1), strings.Replace(s.pub, "I", "\u0131", 1),
+			" " + s.pub, s.pub + " ", s.pub + "\n", s.pub + "=", s.pub + "\x00"}
+		for _, iss := range variants {
+			if iss == s.pub {
+				continue
+			}
+			for _, layout := range []string{"v1", "v2"} {
+				placement, hdr := "nats", hdrV2
+				var ver interface{} = 2
+				if layout == "v1" {
+					placement, hdr, ver = "top", hdrV1, nil
+				}
+				ft := forge(hdr, payload(kind, placement, ver, iss, s.pub), layout, s)
+				ft.Note = fmt.Sprintf("%s, issuer %q is a respelling of the key that signs, signed %s", kind, iss, layout)
+				_, o := processToken(c, w, ft)
+				distinct[fmt.Sprint("respelled", kind, layout, o.Accepted)] = true
+				c.count("issuer_respelled")
 			}
 		}
 	}
